@@ -254,6 +254,10 @@ def _known_nonneg(i):
 # tensor
 
 
+class _FlagsFwd:
+    pass
+
+
 class STensor:
     __array_priority__ = 1000
 
@@ -261,6 +265,7 @@ class STensor:
         self.shape = tuple(sint(raw(d)) for d in shape)
         self._elem = elem
         self.kind = kind
+        self.flags = _Flags()
 
     # raw shape helpers
     @property
@@ -339,6 +344,13 @@ class STensor:
     def copy(self):
         return self
 
+    def flatten(self):
+        if self.ndim == 1:
+            return self
+        if self.ndim == 0:
+            return STensor((1,), lambda i: self._elem(), self.kind)
+        raise OutOfReach("flatten of n-d tensor")
+
     def tolist(self):
         n = self.rshape
         if not all(isinstance(d, int) for d in n):
@@ -413,6 +425,23 @@ class STensor:
         fam = getattr(self, "_family2", None)
         if fam is not None and len(shape) == 2:
             return fam(shape)
+        if len(src) == 1 and len(shape) >= 2:
+            # A-NP reshape contract (C order): out[i0..ik] == flat[sum_d i_d * stride_d]
+            ctx().safety("reshape-size", r_cmp("==", src[0], shape_prod(shape)))
+            strides = []
+            acc = 1
+            for d in reversed(shape):
+                strides.append(acc)
+                acc = core._num_op("*", acc, d)
+            strides = strides[::-1]
+
+            def elem(*idx):
+                flat = 0
+                for i, st in zip(idx, strides):
+                    flat = core._num_op("+", flat, core._num_op("*", i, st))
+                return self._elem(flat)
+
+            return STensor(shape, elem, self.kind)
         if all(isinstance(d, int) for d in src) and all(isinstance(d, int) for d in shape):
             return _concrete_reshape(self, shape)
         raise OutOfReach("reshape %s -> %s" % (src, shape))
@@ -508,6 +537,12 @@ class STensor:
 
 
 ndarray = STensor
+
+
+class _Flags:
+    """ndarray.flags stand-in (symbolic tensors are immutable: __setitem__ is rejected)"""
+
+    writeable = True
 
 
 class MaskedAxisTensor(STensor):
@@ -1289,15 +1324,30 @@ def tile(a, reps):
 
 
 def ix_(*seqs):
-    return IxGrid([_index_seq(s) for s in seqs])
+    seqs = [_index_seq(s) for s in seqs]
+    n = len(seqs)
+    return IxGrid([IxAxis(s, a, n) for a, s in enumerate(seqs)])
+
+
+class IxAxis:
+    """one member of an np.ix_ open mesh: index sequence `seq` broadcast along output axis
+    `out_axis` of an `n_out`-dimensional result"""
+
+    def __init__(self, seq, out_axis, n_out):
+        self.seq, self.out_axis, self.n_out = seq, out_axis, n_out
+        self.n = seq.n
+        self.nonneg = getattr(seq, "nonneg", False)
+        self.in_range_of = getattr(seq, "in_range_of", None)
+
+    def at(self, k):
+        return self.seq.at(k)
 
 
 class IxGrid(tuple):
-    """np.ix_ result: tuple of index sequences (open mesh)."""
+    """np.ix_ result: tuple of IxAxis (open mesh)."""
 
-    def __new__(cls, seqs):
-        o = tuple.__new__(cls, seqs)
-        return o
+    def __new__(cls, axes):
+        return tuple.__new__(cls, axes)
 
 
 def _index_seq(s):
@@ -1339,6 +1389,31 @@ def _np_int(k):
 
 
 def _getitem(t, key):
+    if isinstance(key, tuple) and key and builtins_all(isinstance(k, IxAxis) for k in key):
+        # (possibly re-ordered) open mesh: source axis p is indexed by key[p], which varies
+        # along output axis key[p].out_axis
+        if len(key) > t.ndim:
+            raise IndexError("too many indices")
+        n_out = key[0].n_out
+        if sorted(k.out_axis for k in key) != list(range(n_out)) or len(key) != n_out:
+            raise OutOfReach("partial open mesh")
+        by_out = sorted(key, key=lambda k: k.out_axis)
+        shape = tuple(k.n for k in by_out) + t.rshape[len(key):]
+        for ax, k in enumerate(key):
+            _check_idx_seq(k, t.rshape[ax])
+        if builtins_all(k.out_axis == p for p, k in enumerate(key)):
+            key = IxGrid(list(key))
+        else:
+            keys = list(key)
+
+            def elem_perm(*idx):
+                src = [
+                    (k.at(idx[k.out_axis]) if k.nonneg else _wrap_noob(k.at(idx[k.out_axis]), t.rshape[p]))
+                    for p, k in enumerate(keys)
+                ] + list(idx[len(keys):])
+                return t._elem(*src)
+
+            return STensor(shape, elem_perm, t.kind)
     if isinstance(key, IxGrid):
         if len(key) > t.ndim:
             raise IndexError("too many indices")
